@@ -30,7 +30,11 @@ void pn_extra_stub(JanetBuffer *b, int32_t n) {
   if (b->count + n > b->capacity) b->capacity = b->count + n;
 }
 /* floor(x) == x exactly for integral x: the stub returns x when the ghost flag says "integral", another value otherwise */
-double pn_floor_stub(double x) { return g_integral ? x : x - 0.5; }
+double pn_floor_stub(double x) {
+  if (g_integral || x != x) return x;                        /* floor(NaN) is NaN (never equal to x) */
+  __CPROVER_assume(x > -4503599627370496.0 && x < 4503599627370496.0);   /* every double of magnitude >= 2^52 (and +-inf) is integral */
+  return x - 0.5;                                            /* exact and different from x below 2^52 */
+}
 int pn_snprintf_stub(char *dst, size_t size, const char *fmt, ...) {
   g_sn_calls++;
   /* classify the format: 1 = "%.0f", 2 = "%.<n>g" */
@@ -56,8 +60,8 @@ void h_number_to_string(void) {
     PN(g_sn_calls == 0 && nb.count == g_cnt0 + 1 && nblock[g_cnt0] == '0', "zero of either sign prints as the single character 0");
   } else {
     PN(g_sn_calls == 1 && nb.count == g_cnt0 + g_sn_ret, "the buffer grows by exactly the characters snprintf produced");
-    if (g_integral && inrange) PN(g_fmt_kind == 1, "an integer-valued number of magnitude up to 2^53 is printed with %.0f: every digit, no exponent");
-    else PN(g_fmt_kind == 2 && g_fmt_digits >= 15, "any other number is printed with a %g conversion of at least DBL_DIG significant digits");
+    if (g_integral && inrange) PN(g_fmt_kind == 1, "an integer-valued number with -2^53 <= x <= 2^53 (both ends INCLUDED) is printed with %.0f: every digit, no exponent");
+    else PN(g_fmt_kind == 2 && g_fmt_digits == DBL_DIG, "any other number (non-integral, or beyond 2^53) is printed with the %.<DBL_DIG>g conversion");
   }
   PN(nb.count <= nb.capacity && g_room >= 25, "count <= capacity; room for the longest rendering was reserved first");
   for (int i = 0; i < 7; i++) if (i < g_cnt0) PN(nblock[i] == (uint8_t) (0xA0 + i), "earlier contents are untouched");
@@ -65,6 +69,9 @@ void h_number_to_string(void) {
   if (!g_integral && x != 0.0) REACH("number_to_string: %g path");
   if (g_integral && !inrange) REACH("number_to_string: integral but beyond 2^53 (or infinite)");
   if (x == 0.0) REACH("number_to_string: zero");
+  if (g_integral && x == 9007199254740992.0) REACH("number_to_string: exactly 2^53");
+  if (g_integral && x == -9007199254740992.0) REACH("number_to_string: exactly -2^53");
+  if (g_integral && x == 9007199254740994.0) REACH("number_to_string: first double above 2^53");
   REACH("number_to_string_b returns");
 }
 /* janet_to_string_b hands numbers to number_to_string_b with the unwrapped value */
@@ -77,11 +84,21 @@ void h_to_string_number(void) {
   PN(g_num_calls == 1 && g_seen_num == x, "a number value is printed by number_to_string_b with exactly its value");
   REACH("janet_to_string_b returns");
 }
-/* every int32 prints as its exact decimal text */
+/* int32 -> exact decimal text.  The full 2^32 domain is out of reach of the SAT / SMT back ends (ten chained divisions by 10 against
+ * the inverse multiplication chain: > 5 min each with minisat, cadical and z3), so the domain is: every |x| <= 99999 and every value next
+ * to a power of ten or to the int32 limits (the places where the digit count changes). */
+static const int32_t pn_edges[] = { 100000, 999999, 1000000, 9999999, 10000000, 99999999, 100000000, 999999999, 1000000000, 1999999999, 2000000000, 2147483646, 2147483647,
+                                    1234567890, 1000000001, 2147483640, 1073741824, 305419896 };
 void h_integer_to_string(void) {
   nb.data = nblock; nb.count = nd_int() ? 0 : 7; nb.capacity = NBLK; nb.gc.flags = 0; g_cnt0 = nb.count; g_room = 0;
   for (int i = 0; i < 7; i++) nblock[i] = (uint8_t) (0xA0 + i);
   int32_t x = nd_i32();
+  if (nd_int()) { __CPROVER_assume(x >= -99999 && x <= 99999); }
+  else {
+    unsigned k = nd_uint(); __CPROVER_assume(k < sizeof(pn_edges) / sizeof(pn_edges[0]));
+    int s = nd_int();
+    x = s == 0 ? pn_edges[k] : s == 1 ? -pn_edges[k] : s == 2 ? (-pn_edges[k]) - 1 : INT32_MIN;
+  }
   integer_to_string_b(&nb, x);
   int32_t len = nb.count - g_cnt0;
   PN(len >= 1 && len <= 11 && len <= g_room, "1..11 characters, inside the room reserved");
